@@ -261,4 +261,18 @@ VARIANTS = [
      "new": "import dataclasses as _dc\n\n\n@_dc.dataclass(eq=False)\nclass UDPPacket:\n    dst_addr: ADDR_TUPLE\n"
             "    src_addr: Optional[ADDR_TUPLE]\n    data: bytes\n    direction: Direction\n"
             "    meta: dict = _dc.field(default_factory=dict, init=False)\n"},
+    # ------------------------------------------------------------------ round 6
+    {"name": "R4 session handler guard narrowed to KeyError", "file": LP, "expect": "C06.R4",
+     "old": "        try:\n            self.session.message_handler.handle(message)\n        except:\n",
+     "new": "        try:\n            self.session.message_handler.handle(message)\n        except KeyError:\n"},
+    {"name": "R4 cache-load guard re-raises", "file": LP, "expect": "C06.R4",
+     "old": "                    LOG.exception(\"Failed to load region cache, skipping\")\n",
+     "new": "                    LOG.exception(\"Failed to load region cache, skipping\")\n                    raise\n"},
+    {"name": "P R4 bare except spelled `except Exception`", "file": LP, "expect": "silent",
+     "old": "                except:\n                    LOG.exception(\"Failed to load region cache, skipping\")\n",
+     "new": "                except Exception:\n                    LOG.exception(\"Failed to load region cache, skipping\")\n"},
+    {"name": "P R1 address type compared through a module constant", "expect": "silent", "edits": [
+        {"file": SP, "old": "        if address_type == 1:  # IPv4\n            address = socket.inet_ntoa(data[:4])\n",
+         "new": "        if address_type == ATYP_IPV4:\n            address = socket.inet_ntoa(data[:4])\n"},
+        {"file": SP, "old": "class SOCKS5Server:\n", "new": "ATYP_IPV4 = 1\n\n\nclass SOCKS5Server:\n"}]},
 ]
